@@ -44,6 +44,9 @@ NameTable == <<
   [p |-> "FooBar",   g |-> "FooBar",   s |-> "foo_bar"],
   [p |-> "foo_bar",  g |-> "FooBar",   s |-> "foo_bar"],
   [p |-> "foobar",   g |-> "Foobar",   s |-> "foobar"],
+  \* the names protoc gives the two fields of a map entry message, here as names of ordinary fields
+  [p |-> "value",    g |-> "Value",    s |-> "value"],
+  [p |-> "key",      g |-> "Key",      s |-> "key"],
   [p |-> "lower_num", g |-> "LowerNum", s |-> "lower_num"],
   [p |-> "a_b",      g |-> "AB",       s |-> "a_b"],
   [p |-> "x_y_z",    g |-> "XYZ",      s |-> "x_y_z"],
